@@ -294,6 +294,19 @@ def run(ctx):
             "the response handler of a retry is given the payload table of the original batch (`%s`): if the retry fails as a whole, "
             "every payload of the batch is retried, including those already acknowledged" % tbl, where(dor, dor.node),
             "attempt 1: partition A acknowledged, B fails; retry of B fails with a client-side KafkaError; attempt 3 re-sends A: duplicates")
+    # "everything failed" is concluded only from a failure that carries no per-payload outcome: a FailedPayloadsError - with
+    # however few responses (acks=0: none at all) - names the payloads that failed; the others were handed to their brokers
+    ch3 = ctx.cfg(hsr)
+    anc3, _al3 = exc_table(prog)
+    pr3 = hsr.first_param()
+    ist3 = [n for n in ch3.nodes if n.kind == "test" and norm(n.stmt.test) == "isinstance(%s, Failure)" % pr3]
+    tn3 = {n.id for x in total_arm for n in ch3.containing(x)}
+    if ist3 and tn3 and "FailedPayloadsError" in anc3:
+        st3 = [t for t, lab in ch3.succ[ist3[0].id] if lab and lab[0] == "cond" and lab[2]]
+        bad3 = case_reach(ch3, pr3, "FailedPayloadsError", anc3, False, tn3, start=st3)
+        r.check(not bad3, "%s#all-failed-only-without-per-payload-outcome" % hsr.qname, "every payload of the attempt is marked failed on a path a "
+                "FailedPayloadsError (which says which payloads failed) can take", where(hsr, total_arm[0]),
+                "acks=0, two brokers, one fails: the payloads already handed to the healthy broker are not reported at once and are sent again")
     # callLater(..., d.callback, [p for p, f in <failed list>]) and d.addCallback(_do_retry)
     cl = [c for c in calls_in(crp, "callLater")]
     call_sites = [c for c in calls_in(hsr) if prog.resolve_call(hsr, c) is crp]
@@ -387,6 +400,21 @@ def run(ctx):
         okn = okn and all(sl_.id not in cnp.reach([t for t, lab in cnp.succ[lt_.id] if lab != ("exc",)], avoid=incs_, follow_exc=False) for lt_ in lim_t)
     r.check(okn, "%s#every-round-counted" % npf.qname, "a round of the metadata wait can go back to sleep without counting against the attempt limit",
             where(npf, sleeps[0].stmt if sleeps else npf.node), "a topic that stays in an error state: its sends - and everything queued behind them - never complete")
+    # the counter only ever grows between two completions: nothing hands an attempt back
+    shrinks = []
+    for f_, k_, node_ in prog.attr_accesses(ci, "_req_attempts", False):
+        if k_ not in ("write", "aug", "del"):
+            continue
+        st_ = [x for x in walk_body_shallow(f_.body) if isinstance(x, (ast.Assign, ast.AugAssign, ast.Delete)) and any(y is node_ for y in ast.walk(x))]
+        for x in st_:
+            if isinstance(x, ast.AugAssign):
+                v_ = const_value(prog, f_, x.value)
+                if not (isinstance(x.op, ast.Add) and isinstance(v_, int) and not isinstance(v_, bool) and v_ > 0):
+                    shrinks.append("%s line %d: `%s`" % (f_.qname, x.lineno, norm(x, 50)))
+            elif not (f_.name == "__init__" or f_ is cbs):
+                shrinks.append("%s line %d: `%s`" % (f_.qname, x.lineno, norm(x, 50)))
+    r.check(not shrinks, "%s#attempt-counter-only-grows" % PROD, "the attempt counter is lowered or re-assigned outside the completion stage: %s" % shrinks,
+            where(cbs, cbs.node), "a class of failures (no leader) is not counted: unbounded produce attempts, the batch never resolves")
     cc2 = ctx.cfg(crp)
     fc = ctx.facts(crp)
     for n in cc2.nodes:
@@ -416,6 +444,19 @@ def run(ctx):
                 r.check(ok, "%s#backoff-kernel" % crp.qname,
                         "retry delay is not `current interval` followed by `interval *= constant > 1` (factor=%r)" % fac,
                         where(crp, c), "retries do not back off geometrically", facts=["factor=%r" % fac])
+    # every other place that lets the interval grow (the wait for usable metadata) waits the current interval first
+    for f_ in sorted([x for x in prog.funcs.values() if x.cls is ci and x is not crp], key=lambda x: x.qname):
+        cf_ = ctx.cfg(f_)
+        grow_ = [m for m in cf_.nodes if m.kind == "stmt" and isinstance(m.stmt, ast.AugAssign) and self_attr(m.stmt.target) == "_retry_interval"]
+        for m in grow_:
+            timers_ = [n for n in cf_.nodes for c in n.calls() if call_name(c) in ("callLater", "deferLater") and c.args and norm(
+                at(ctx, f_, n.id, c.args[0 if call_name(c) == "callLater" else 1])) == "self._retry_interval" and len(c.args) > (0 if call_name(c) == "callLater" else 1)]
+            fv_ = const_value(prog, f_, m.stmt.value)
+            ok_ = isinstance(m.stmt.op, ast.Mult) and isinstance(fv_, (int, float)) and not isinstance(fv_, bool) and fv_ > 1 and bool(timers_) and \
+                cf_.dominates([n.id for n in timers_], m.id)
+            r.check(ok_, "%s#backoff-kernel" % f_.qname, "the interval grows here without the wait before it lasting the current interval "
+                    "(factor=%r, timers on the current interval: %d)" % (fv_, len(timers_)), where(f_, m.stmt),
+                    "the waits of a batch are not geometric from the configured interval (2.0, 2.0, 2.0, 3.47 instead of 2.0, 2.4, 2.89, 3.47)")
     # the interval goes back to its initial value only where the batch resolves (and in the constructor): a reset inside
     # the response handling restarts the back-off in the middle of a batch
     early = []
